@@ -161,6 +161,8 @@ def decode_direct(enc, buf, pdesc):
     from vmon.probes import BudgetExceeded
     st = RecStream(enc, mk_policy(pdesc))
     st.stalls = stalls_of(pdesc)
+    if (len(enc) + buf) % 5 == 0:
+        st.as_bytearray()
     sc = steps()
     sc.arm(budget(enc))
     try:
@@ -195,7 +197,14 @@ def decode_wsgi(enc, buf, pdesc, ctype=None, limit=None):
             return app.request.body.read()
     st = RecStream(enc, mk_policy(pdesc))
     st.stalls = stalls_of(pdesc)
-    env = make_environ('POST', '/c', stream=st, chunked=True, content_length=None, content_type=ctype)
+    if (len(enc) + buf) % 5 == 1:
+        st.as_bytearray()
+    # a Content-Length next to the chunked framing (a proxy that adds one, a client that sends both): the framing wins
+    extra = {0: {'CONTENT_LENGTH': '0'}, 1: {'CONTENT_LENGTH': '00'}, 2: {'CONTENT_LENGTH': str(len(enc))}, 3: {'CONTENT_LENGTH': '1'}}.get((len(enc) * 7 + buf) % 9)
+    if extra:
+        from vmon import wsgi as _w
+        _w.flavour_counts['chunked_request_carrying_a_content_length_too'] = _w.flavour_counts.get('chunked_request_carrying_a_content_length_too', 0) + 1
+    env = make_environ('POST', '/c', stream=st, chunked=True, content_length=None, content_type=ctype, extra=extra)
     sc = steps()
     sc.arm(budget(enc) + 20000)
     r = call_app(app, env)
